@@ -268,6 +268,25 @@ def check(case, rec=None):
             ok, sc = guard(ix.score, ubi)
             if ok and sc != nin:
                 fails.append(fail("count", "indexer.score = %s, reference %d; %s" % (sc, nin, where), fn="indexer.score"))
+            # validation histogram of |h - round(h)| with the default bin edges: the counts below each edge are those
+            # of the reference errors (score at that tolerance)
+            if n >= 1:
+                ok, e_ = guard(ix.histogram_drlv_fit, ubi)
+                if not ok:
+                    fails.append(exc_failure("indexer.histogram_drlv_fit", e_))
+                else:
+                    edges = np.asarray(ix.bins, float)
+                    cum = np.concatenate([[0], np.cumsum(np.asarray(ix.histogram)[0])])
+                    dr = np.sqrt(np.asarray(e, float))
+                    below0 = int((dr < edges[0]).sum())
+                    for k_, b_ in enumerate(edges):
+                        if np.abs(dr - b_).min() < 1e-12 * (1 + b_):
+                            continue
+                        if below0 + cum[k_] != int((dr < b_).sum()):
+                            fails.append(fail("count", "indexer.histogram_drlv_fit: %d peaks below the edge %.3g, "
+                                              "reference %d; %s" % (below0 + cum[k_], b_, int((dr < b_).sum()), where),
+                                              fn="histogram_drlv_fit"))
+                            break
             sel = sure & (ra > -1)
             if sel.any():
                 refm, UBr, condr, singr = lsq(gv, hi, sel)
